@@ -144,7 +144,9 @@ func (f *field) TokenReader() xml.TokenReader {
 	}
 	var firstVal bool
 	for _, val := range f.value {
-		if val == "" {
+		if val == "" && f.typ != TypeTextMulti {
+			// An empty value is a blank line of a multi-line text; for all other
+			// types it carries nothing.
 			continue
 		}
 		// Some list types are only allowed to have a single value.
